@@ -172,8 +172,176 @@ fn judge<TC: akd::configuration::Configuration>(base: &[DbRecord], base_epoch: u
     None
 }
 
+#[derive(Clone, Debug)]
+pub enum ReadOp {
+    EpochHash,
+    Lookup(AkdLabel),
+    History(AkdLabel, akd::HistoryParams),
+    Audit(u64, u64),
+}
+
+pub struct ReadRun {
+    pub publish: Result<(u64, [u8; 32]), String>,
+    /// per reader: Err, or (epoch, root, verified?) — `None` root list means unverifiable here
+    pub reads: Vec<Result<(u64, [u8; 32], bool), String>>,
+    pub choices: Vec<Choice>,
+}
+
+/// one publish (task 0, writer instance) interleaved with read requests (tasks 1.., a separate read-only
+/// instance with its own storage manager over the same database)
+fn run_reads<TC: akd::configuration::Configuration>(base: &[DbRecord], batch: &Batch, reads: &[ReadOp], reader_cache: &str, roots: &[[u8; 32]], prefs: &[usize]) -> ReadRun {
+    use akd::ecvrf::VRFKeyStorage;
+    let rt = tokio::runtime::Builder::new_current_thread().enable_all().build().unwrap();
+    rt.block_on(async {
+        let db = SchedDb::from_records(base).await;
+        let writer = Directory::<TC, _, _>::new(make_mgr(db.clone(), "none"), HardCodedAkdVRF {}, AzksParallelismConfig::disabled()).await.unwrap();
+        let reader = akd::directory::ReadOnlyDirectory::<TC, _, _>::new(make_mgr(db.clone(), reader_cache), HardCodedAkdVRF {}, AzksParallelismConfig::disabled()).await.unwrap();
+        let pk = HardCodedAkdVRF {}.get_vrf_public_key().await.unwrap();
+        db.ctl.enabled.store(true, Ordering::SeqCst);
+        let b = batch.clone();
+        let w = writer.clone();
+        let hp = tokio::spawn(TID.scope(0, async move { w.publish(b).await.map(|e| (e.0, e.1)).map_err(|e| e.to_string()) }));
+        let mut hr = vec![];
+        for (i, op) in reads.iter().enumerate() {
+            let r = reader.clone();
+            let op = op.clone();
+            let pk = pk.clone();
+            let roots = roots.to_vec();
+            hr.push(tokio::spawn(TID.scope(i + 1, async move {
+                match op {
+                    ReadOp::EpochHash => r.get_epoch_hash().await.map(|e| (e.0, e.1, true)).map_err(|e| e.to_string()),
+                    ReadOp::Lookup(u) => match r.lookup(u.clone()).await {
+                        Ok((p, eh)) => Ok((eh.0, eh.1, akd::verify::lookup_verify::<TC>(pk.as_bytes(), eh.1, eh.0, u, p).is_ok())),
+                        Err(e) => Err(e.to_string()),
+                    },
+                    ReadOp::History(u, params) => match r.key_history(&u, params).await {
+                        Ok((p, eh)) => Ok((eh.0, eh.1, akd::verify::key_history_verify::<TC>(pk.as_bytes(), eh.1, eh.0, u, p, akd::verify::history::HistoryVerificationParams::Default { history_params: params }).is_ok())),
+                        Err(e) => Err(e.to_string()),
+                    },
+                    ReadOp::Audit(s, e) => match r.audit(s, e).await {
+                        Ok(p) => {
+                            let hashes: Vec<[u8; 32]> = (s..=e).filter_map(|i| roots.get(i as usize).cloned()).collect();
+                            let ok = hashes.len() as u64 == e - s + 1 && akd::auditor::audit_verify::<TC>(hashes, p).await.is_ok();
+                            Ok((e, roots.get(e as usize).cloned().unwrap_or([0; 32]), ok))
+                        }
+                        Err(e) => Err(e.to_string()),
+                    },
+                }
+            })));
+        }
+        let hp = Arc::new(hp);
+        let hr = Arc::new(hr);
+        let (hp2, hr2) = (hp.clone(), hr.clone());
+        let n = reads.len() + 1;
+        let choices = drive(&db.ctl, n, prefs, &move |i| if i == 0 { hp2.is_finished() } else { hr2[i - 1].is_finished() }).await;
+        db.ctl.enabled.store(false, Ordering::SeqCst);
+        let publish = match Arc::try_unwrap(hp).ok().unwrap().await {
+            Ok(r) => r,
+            Err(e) => Err(format!("panicked: {e}")),
+        };
+        let mut out = vec![];
+        for h in Arc::try_unwrap(hr).ok().unwrap() {
+            out.push(match h.await {
+                Ok(r) => r,
+                Err(e) => Err(format!("panicked: {e}")),
+            });
+        }
+        ReadRun { publish, reads: out, choices }
+    })
+}
+
+fn parse_read_op(t: &[&str]) -> Option<ReadOp> {
+    match t {
+        ["epochhash"] => Some(ReadOp::EpochHash),
+        ["lookup", u] => Some(ReadOp::Lookup(AkdLabel(parse_hex(u)?))),
+        ["history", u, p] => Some(ReadOp::History(AkdLabel(parse_hex(u)?), crate::exec_l1::parse_params(p)?)),
+        ["audit", s, e] => Some(ReadOp::Audit(s.parse().ok()?, e.parse().ok()?)),
+        _ => None,
+    }
+}
+
 pub fn step(ex: &mut Exec, st: &mut L1State, op: &str, toks: &[&str]) -> Option<String> {
     match op {
+        "sch.read" if toks.len() >= 4 => {
+            // sch.read <max preemptions> <reader cache> <read op> [| <read op>]* || <publish batch>
+            let fx = st.fx.as_ref()?;
+            let bound: usize = toks[1].parse().ok()?;
+            let rcache = toks[2].to_string();
+            let sep = toks.iter().position(|t| *t == "||")?;
+            let mut reads = vec![];
+            for part in toks[3..sep].split(|t| *t == "|") {
+                reads.push(parse_read_op(part)?);
+            }
+            let mut batch: Batch = vec![];
+            let mut i = sep + 1;
+            while i + 1 < toks.len() {
+                batch.push((AkdLabel(parse_hex(toks[i])?), AkdValue(parse_hex(toks[i + 1])?)));
+                i += 2;
+            }
+            let cfg = fx.cfg.clone();
+            let base = fx.records.clone();
+            let base_epoch = st.fx_roots.len() as u64 - 1;
+            let roots = st.fx_roots.clone();
+            let max_runs = if st.thorough { 20_000 } else { 1_500 };
+            let (runs, violations) = with_cfg!(cfg.as_str(), TC => {
+                let mut stack: Vec<Vec<usize>> = vec![vec![]];
+                let mut seen = std::collections::HashSet::new();
+                let (mut runs, mut violations) = (0usize, 0usize);
+                while let Some(prefs) = stack.pop() {
+                    if runs >= max_runs {
+                        break;
+                    }
+                    let r = run_reads::<TC>(&base, &batch, &reads, &rcache, &roots, &prefs);
+                    let chosen: Vec<usize> = r.choices.iter().map(|c| c.chosen).collect();
+                    if !seen.insert(chosen.clone()) {
+                        continue;
+                    }
+                    runs += 1;
+                    let enabled: Vec<Vec<usize>> = r.choices.iter().map(|c| c.enabled.clone()).collect();
+                    for s in prefs.len()..chosen.len() {
+                        for a in &enabled[s] {
+                            if *a != chosen[s] {
+                                let mut p = chosen[..s].to_vec();
+                                p.push(*a);
+                                let mut en = enabled[..s].to_vec();
+                                en.push(enabled[s].clone());
+                                if preemptions(&p, &en) <= bound {
+                                    stack.push(p);
+                                }
+                            }
+                        }
+                    }
+                    // oracle (C13): error, or a pair the directory really published together with a proof that verifies
+                    let mut published: Vec<(u64, [u8; 32])> = roots.iter().enumerate().map(|(e, h)| (e as u64, *h)).collect();
+                    if let Ok((e, h)) = &r.publish {
+                        published.push((*e, *h));
+                    }
+                    for (k, rd) in r.reads.iter().enumerate() {
+                        if let Ok((e, h, verified)) = rd {
+                            let is_audit = matches!(reads[k], ReadOp::Audit(_, _));
+                            let bad = if !is_audit && !published.contains(&(*e, *h)) {
+                                Some(("unpublished-epoch-hash", format!("answered with epoch {} and root {}, never published for that epoch", e, hex::encode(h))))
+                            } else if !verified {
+                                Some(("answer-does-not-verify", format!("the proof returned with epoch {} does not verify against the returned root hash", e)))
+                            } else if *e < base_epoch {
+                                Some(("epoch-went-back", format!("answered from epoch {} although {} was already published", e, base_epoch)))
+                            } else {
+                                None
+                            };
+                            if let Some((tag, what)) = bad {
+                                violations += 1;
+                                if violations <= 3 {
+                                    ex.fail_tag("C13", tag, format!("schedule {} ({} preemptions), {:?} interleaved with a publish: {}", show_sched(&r.choices), preemptions(&chosen, &enabled), reads[k], what));
+                                }
+                            }
+                        }
+                    }
+                }
+                (runs, violations)
+            });
+            ex.stats.bump(op, &format!("readers{}-bound{}-runs{}", reads.len(), bound, (runs / 100) * 100));
+            Some(format!("violations={violations}"))
+        }
         "sch.enum" if toks.len() >= 3 => {
             // sch.enum <max preemptions> <batch> | <batch> [| <batch>]   (batch = pairs of hex label, hex value)
             let fx = st.fx.as_ref()?;
